@@ -461,7 +461,7 @@ class Machine:
         if mu and mu.group(1) in self.decls.enums and any(v == mu.group(2) and f is None for v, f in self.decls.enums[mu.group(1)]):
             k = self.decls.variant_index(mu.group(1), mu.group(2)); return EnumV(mu.group(1), k, {k: []})
         nc = MIR.NAMED_CONSTS.get(s.split('::')[-1])
-        if nc is not None and re.fullmatch(r'[\w:]+', s): return self.const(fr, nc)
+        if nc is not None and (re.fullmatch(r'[\w:]+', s) or re.fullmatch(r'<.*>(::\w+)*::[A-Z][A-Z0-9_]*', s)): return self.const(fr, nc)
         hook = self.aux.get('const_hook')
         if hook is not None:
             r = hook(self, s)
